@@ -297,7 +297,7 @@ Definition pr_hobs (o : hobs) : list tok :=
   | ONone => [[45]]
   | OBool true => [[116]]
   | OBool false => [[102]]
-  | OCompiled _ (Ok _) => [K_OK]
+  | OCompiled _ (Ok a) => K_OK :: pr_ast a
   | OCompiled text r => pr_res text (fun _ : ast => []) r
   | OSearched text r => pr_res text pr_value r
   | OBadHandle => [K_BAD]
